@@ -120,7 +120,18 @@ func buildWorker(scratch, flavour string) (string, *instrStats) {
 		fatal(2, "INFRA instrumentation failed: %v", err)
 	}
 	bin := filepath.Join(sub, "vworker")
-	args := []string{"build", "-overlay", ov, "-o", bin}
+	// private copies of go.mod/go.sum so that -mod=mod never edits /repo
+	modfile := filepath.Join(sub, "go.mod")
+	for _, n := range []string{"go.mod", "go.sum"} {
+		b, err := os.ReadFile(filepath.Join(repoDir, n))
+		if err != nil {
+			fatal(2, "INFRA cannot read %s: %v", n, err)
+		}
+		if err := os.WriteFile(filepath.Join(sub, n), b, 0o644); err != nil {
+			fatal(2, "INFRA %v", err)
+		}
+	}
+	args := []string{"build", "-modfile", modfile, "-overlay", ov, "-o", bin}
 	if flavour == "race" {
 		args = append(args, "-race")
 	}
